@@ -1099,7 +1099,16 @@ static size_t ares_calc_query_timeout(const ares_query_t   *query,
    * retry from the last retry */
   rounds = (query->try_count / num_servers);
   if (rounds > 0) {
-    timeplus <<= rounds;
+    /* Saturate rather than shift bits out of the type: a shift by the width
+     * of size_t or more is undefined behavior, and a wrapped value would turn
+     * into a tiny timeout.  All timeout options are ints, so INT_MAX
+     * milliseconds is beyond any configurable value. */
+    if (rounds >= sizeof(int) * CHAR_BIT - 1 ||
+        timeplus > ((size_t)INT_MAX >> rounds)) {
+      timeplus = (size_t)INT_MAX;
+    } else {
+      timeplus <<= rounds;
+    }
   }
 
   if (channel->maxtimeout && timeplus > channel->maxtimeout) {
